@@ -351,12 +351,19 @@ func (d *dataRun) xferCase(c DataCase, out map[string]interface{}) {
 	}
 }
 
+// CTE is a handler that fails with a status of its own: /cte/fail.
+type CTE struct{ erpc.CallCtx }
+
+// Fail returns the handler's own error status.
+func (c *CTE) Fail(arg *Arg) (*Res, *erpc.Status) { return nil, erpc.NewStatus(1001, "hmsg", "hcause") }
+
 func (d *dataRun) replyPipe(c DataCase, ids, pl []byte, out map[string]interface{}) {
 	pf := ProtoFuncByName(c.S("proto"))
 	srv := erpc.NewPeer(erpc.PeerConfig{DefaultBodyCodec: "json"})
 	cli := erpc.NewPeer(erpc.PeerConfig{DefaultBodyCodec: "json"})
 	curCorr = &corrApp{rec: d.rec}
 	corrRoutes(srv)
+	srv.RouteCall(new(CTE))
 	defer func() {
 		done := make(chan struct{})
 		go func() { cli.Close(); srv.Close(); close(done) }()
@@ -380,12 +387,28 @@ func (d *dataRun) replyPipe(c DataCase, ids, pl []byte, out map[string]interface
 	if len(ids) > 0 {
 		settings = append(settings, erpc.WithXferPipe(ids...))
 	}
-	cmd := cs.Call("/ct/call", &Arg{Tag: "rp", Pad: string(pl)}, res, settings...)
-	if !cmd.StatusOK() {
-		out["err"] = cmd.Status().String()
-		return
+	route, wantCode := "/ct/call", int32(0)
+	var arg interface{} = &Arg{Tag: "rp", Pad: string(pl)}
+	switch c.S("outcome") {
+	case "herr":
+		route, wantCode = "/cte/fail", 1001
+	case "nf":
+		route, wantCode = "/ct/nothere", erpc.CodeNotFound
+	case "baddec":
+		arg, wantCode = []byte(`{"tag":12345,"pad":[1]}`), erpc.CodeBadMessage
+		settings = append(settings, erpc.WithBodyCodec('j'))
 	}
-	out["equal"] = res.Tag == F("rp") && res.Pad == string(pl)
+	cmd := cs.Call(route, arg, res, settings...)
+	if wantCode == 0 {
+		if !cmd.StatusOK() {
+			out["err"] = cmd.Status().String()
+			return
+		}
+		out["equal"] = res.Tag == F("rp") && res.Pad == string(pl)
+	} else {
+		out["equal"] = cmd.Status().Code() == wantCode
+		out["status"] = cmd.Status().String()
+	}
 	time.Sleep(time.Millisecond)
 	_, inb := a.Tapped()
 	frames, _ := ParseRawFrames(inb)
